@@ -401,6 +401,8 @@ def render_module(spec, m: int, src_value=None) -> str:
         for mk in t.get("marks", []):
             if mk == "skip":
                 mark_lines.append("@pytask.mark.skip")
+            elif mk == "skipif_true_kw":     # the condition passed by keyword
+                mark_lines.append("@pytask.mark.skipif(condition=True, reason='cond true')")
             elif mk == "skipif_true_e":      # a true condition with an empty reason text
                 mark_lines.append("@pytask.mark.skipif(True, reason='')")
             elif mk == "skipif_true":
@@ -585,7 +587,7 @@ def model_lines(spec):
         marks = t.get("marks", [])
         if "skip" in marks:
             flags.append("skip")
-        if "skipif_true" in marks or "skipif_true_e" in marks:
+        if {"skipif_true", "skipif_true_e", "skipif_true_kw"} & set(marks):
             flags.append("skipif")
         if "persist" in marks:
             flags.append("persist")
